@@ -333,6 +333,7 @@ package simpledb
 //@   bounded crash_points process kill at file-system call boundaries (strace signal injection at the N-th write / pwrite64 / openat / rename* / unlink* / mkdir* / rmdir / ftruncate / fsync / fdatasync of a thread): a 16-operation workload (puts, overwrites, deletes, 2 compaction cycles, memstore rotations) x synchronous and asynchronous log x {real background flusher, sequential schedule on one locked thread = every call of the process}; every 9th call (quick) / every call (thorough); every 4th (5th) crash image additionally with the recovery killed once (twice); recovery killed at each unlink while it clears a log directory with three unflushed files; after each: Open succeeds and the reads equal the acknowledged prefix
 //@   requires db.memStore != nil && db.memStore.writeStore != nil && db.sstableManager != nil && db.sstableManager.managerLock != nil
 //@   call 0 of wal.MaximumWalFileSizeBytes: assert [C01,C02:log-never-rotates-by-size] arg0 == 18446744073709551615
+//@   call 0 of wal.NewWriteAheadLog: assert [C02,C13,C10:new-log-starts-in-a-cleared-directory] called(removeWalOldestFirst, 0) && callres(removeWalOldestFirst, 0, 0) == nil
 //@   call 0 of removeWalOldestFirst: assert [C10,C02:log-removed-only-after-the-replayed-records-are-in-a-table] numRecords == 0 ||
 //@        (called(executeFlush, 0) && callres(executeFlush, 0, 0) == nil)
 //@   exit [C10:replay-error-fails-the-open] called(WriteAheadLogReplayI.Replay, 0) && callres(WriteAheadLogReplayI.Replay, 0, 0) != nil ==> r0 != nil
@@ -434,3 +435,17 @@ package simpledb
 //@   exit [C18,C01:flush-hand-over-is-unbuffered] r1 == nil ==> cap(r0.storeFlushChannel) == 0
 //@   ensures r1 == nil ==> r0 != nil
 //@   fresh r0
+
+// The directory walk of repairCompactions, per entry (a function literal verified on its own; the flag reader is opened, read
+// and closed in a nested literal that is inlined): a compaction folder is finished only if its success flag could be opened
+// and its metadata record read; otherwise it is only scheduled for deletion; the flag reader is closed whenever it was created.
+//@ func repairCompactions$1
+//@   props C10 C02 C19
+//@   requires [plausible-lists] len(compactionsToFinish) < 4611686018427387904 && len(compactionsToDelete) < 4611686018427387904
+//@   exit [C10,C02:only-a-readable-flag-is-finished] len(compactionsToFinish) != old(len(compactionsToFinish)) ==>
+//@        called(ReaderI.Open, 0) && callres(ReaderI.Open, 0, 0) == nil && called(ReaderI.ReadNext, 0) && callres(ReaderI.ReadNext, 0, 1) == nil
+//@   // (if closing the flag reader fails after a successful read the folder ends up in both lists: an I/O fault on close of a
+//@   //  read-only file, outside the crash-point quantifier of C02 / C10; the clause excludes it explicitly)
+//@   exit [C10,C02:finished-or-deleted-never-both] len(compactionsToFinish) != old(len(compactionsToFinish)) && callres(ReaderI.Close, 0, 0) == nil ==>
+//@        len(compactionsToDelete) == old(len(compactionsToDelete))
+//@   exit [C19:flag-reader-closed] called(proto.NewReader, 0) && callres(proto.NewReader, 0, 1) == nil ==> called(ReaderI.Close, 0)
